@@ -12,6 +12,11 @@ list="$TMP/list"
 : > "$list"
 for d in seeded/*/; do n=$(basename "$d"); p=${n%%-*}; echo "seed $n $p seeded/$n/patch.diff" >> "$list"; done
 for f in mutants/*.patch; do n=$(basename "$f" .patch); p=${n%%-*}; echo "mutant $n $p $f" >> "$list"; done
+# additional runs against another property's check (selftest/also.tsv)
+grep -v '^#' selftest/also.tsv | while read -r n p; do
+  [ -z "$n" ] && continue
+  if [ -d "seeded/$n" ]; then echo "seed $n $p seeded/$n/patch.diff" >> "$list"; elif [ -f "mutants/$n.patch" ]; then echo "mutant $n $p mutants/$n.patch" >> "$list"; fi
+done
 while read -r c p; do echo "revert $c $p --revert" >> "$list"; done <<'REV'
 b2d3985 C02
 d9318e4 C02
@@ -58,5 +63,6 @@ export -f run_one
 : > "$OUT.tmp"
 cat "$list.f" | xargs -P "$JOBS" -L 1 bash -c 'run_one "$0" "$1" "$2" "$3"' >> "$OUT.tmp"
 sort "$OUT.tmp" > "$OUT"; rm -f "$OUT.tmp"
-echo "detected: $(awk -F'\t' '$4==1' "$OUT" | wc -l) / $(wc -l < "$OUT")"
-awk -F'\t' '$4!=1' "$OUT"
+echo "runs that detected: $(awk -F'\t' '$4==1' "$OUT" | wc -l) / $(wc -l < "$OUT")"
+# a change counts as detected when at least one of its runs (own property or selftest/also.tsv) detects it
+awk -F'\t' '{k=$1" "$2; seen[k]=1; if ($4==1) det[k]=1} END {n=0; d=0; for (k in seen) {n++; if (det[k]) d++; else print "NOT DETECTED: " k}; print "changes detected: " d " / " n}' "$OUT"
